@@ -6,6 +6,7 @@ import importlib
 import itertools
 import math
 from collections import OrderedDict, namedtuple
+from numbers import Real
 from typing import (
     Any,
     Callable,
@@ -381,7 +382,7 @@ class GeoBoxBase:
             )
             return new_geobox.shape, new_geobox.affine
 
-        if isinstance(shape, (int, float)):
+        if isinstance(shape, Real):
             nmax = max(*self._shape)
             return self.compute_zoom_out(nmax / shape)
 
@@ -571,7 +572,7 @@ class GeoBox(GeoBoxBase):
         elif bbox.crs is None:
             bbox = _norm_bbox(bbox.bbox, crs)
 
-        if isinstance(shape, (int, float)):
+        if isinstance(shape, Real):
             # longest side, not via ``bbox.aspect`` it divides by span_y
             resolution = max(bbox.span_x, bbox.span_y) / shape
             shape = None
